@@ -49,7 +49,7 @@ func init() {
 		Batches: func(seed int64, tier core.Tier) []core.Batch {
 			var bs []core.Batch
 			for s := 0; s < tierPick(tier, 12, 32); s++ {
-				bs = append(bs, core.Batch{Name: fmt.Sprintf("vconn-%d", s), TimeoutS: 600, Params: core.Params(c09Params{Kind: "vconn", Shard: s, N: tierPick(tier, 40, 200)})})
+				bs = append(bs, core.Batch{Name: fmt.Sprintf("vconn-%d", s), TimeoutS: 600, Params: core.Params(c09Params{Kind: "vconn", Shard: s, N: tierPick(tier, 40, 400)})})
 			}
 			for s := 0; s < tierPick(tier, 2, 8); s++ {
 				bs = append(bs, core.Batch{Name: fmt.Sprintf("nats-%d", s), TimeoutS: 600, Params: core.Params(c09Params{Kind: "nats", Shard: s, N: tierPick(tier, 6, 40)})})
